@@ -226,9 +226,15 @@ def main(a):
     dist["fragment"] = len(progs)
     for (f, m), mm, src, o in zip(progs, mo, srcs, outs):
         tr, out, ended = sched.split_events(mm)
+        gave_up = list(sched.GIVEUPS)
         if not ended:
             continue
         nontrivial.add(("A", tuple(out[:30])))
+        if gave_up:
+            # the mechanism model itself says: a wait loop ended with its target unfinished (the awaited value is then 0,
+            # not the task's result) although the program's awaits are acyclic — a violation of the property
+            report("fragment", "await returned before the awaited task completed (%s)" % gave_up[0],
+                   {"program": src, "model_events": gave_up, "impl_stdout": o[0]}, cell="giveup")
         iout = [l for l in o[0].split("\n") if l]
         if iout != out or o[1] != "ok":
             report("fragment", "stdout differs from the model: expected %s got %s (%s)" % (out[:14], iout[:14], o[1]),
